@@ -141,8 +141,13 @@ public:
             copy_pixels(img._view,_view);
         else
         {
-            image tmp(img);
-            swap(tmp);
+            // The copy is made with the allocator this image is to hold afterwards (its own, unless the
+            // allocator propagates on copy assignment) and adopted together with that allocator:
+            // swapping with a copy that carries the source's allocator exchanged the allocators in C++14
+            // and paired each block with the other image's allocator in C++17, where swap leaves
+            // non-propagating allocators in place.
+            image tmp(img, choose_pocca<allocator_type>::value ? img._alloc : _alloc, copy_with_allocator{});
+            move_assign(tmp, propagate_allocators{});
         }
         return *this;
     }
@@ -154,8 +159,8 @@ public:
             copy_pixels(img._view,_view);
         else
         {
-            image tmp(img);
-            swap(tmp);
+            image tmp(img, _alloc, copy_with_allocator{});
+            move_assign(tmp, propagate_allocators{});
         }
         return *this;
     }
@@ -171,6 +176,18 @@ public:
           std::true_type,
           typename std::allocator_traits<Alloc2>::propagate_on_container_move_assignment::type
       >::type;
+
+      // deep copy of img (any image type) that allocates with alloc_in instead of img's allocator
+      struct copy_with_allocator {};
+      template <typename Img>
+      image(Img const& img, Alloc const& alloc_in, copy_with_allocator)
+          : _memory(nullptr), _align_in_bytes(img._align_in_bytes), _alloc(alloc_in), _allocated_bytes(0)
+      {
+          allocate_and_copy(img.dimensions(), img._view);
+      }
+
+      template <class Alloc2>
+      using choose_pocca = typename std::allocator_traits<Alloc2>::propagate_on_container_copy_assignment::type;
 
       static void exchange_memory(image& lhs, image& rhs)
       {
@@ -198,7 +215,8 @@ public:
               // cannot propagate the allocator and cannot adopt the memory:
               // deep-copy with our own allocator, take the copy's storage (the temporary
               // releases ours), then release the source and leave it empty
-              image tmp(img._view, img._align_in_bytes, _alloc);
+              // (not through the view constructor: it requires a pixel type, an image may hold any Regular element)
+              image tmp(img, _alloc, copy_with_allocator{});
               swap(tmp);
               destruct_pixels(img._view);
               img.deallocate();
@@ -266,7 +284,7 @@ public:
         }
         else
         {
-            image tmp(dims, alignment);
+            image tmp(dims, alignment, _alloc);   // keep this image's allocator
             swap(tmp);
         }
     }
@@ -291,7 +309,7 @@ public:
         }
         else
         {
-            image tmp(dims, p_in, alignment);
+            image tmp(dims, p_in, alignment, _alloc);   // keep this image's allocator
             swap(tmp);
         }
     }
@@ -317,8 +335,9 @@ public:
         }
         else
         {
+            // the new storage is adopted together with the allocator that made it
             image tmp(dims, alignment, alloc_in);
-            swap(tmp);
+            move_assign(tmp, propagate_allocators{});
         }
     }
 
@@ -343,7 +362,7 @@ public:
         else
         {
             image tmp(dims, p_in, alignment, alloc_in);
-            swap(tmp);
+            move_assign(tmp, propagate_allocators{});
         }
     }
 
